@@ -134,6 +134,8 @@ def gamma_index(spec, n):
         return ["r%d" % i for i in range(n)]
     if spec == "dup":
         return [i // 2 for i in range(n)]
+    if spec == "same":
+        return [7] * n
     if spec == "rev":
         return list(range(n - 1, -1, -1))
     if spec == "mixed":
@@ -239,7 +241,7 @@ def with_nulls(rng, vals, sentinels, pattern=None):
 
 
 def idx_name(rng, recipe):
-    recipe["index"] = rng.choice(["default", "default", "str", "dup", "rev", "mixed"])
+    recipe["index"] = rng.choice(["default", "default", "str", "dup", "rev", "mixed", "same"])
     recipe["name"] = rng.choice([None, "col", "x y", 3])
     return recipe
 
